@@ -120,7 +120,7 @@ static void gen_history(Rng &r, Plan &p, int mode, bool c04) {
     Fault f; f.actor = "qmail-queue"; f.call = r.pick(std::vector<CallId>{C_WRITE, C_FSYNC, C_LINK, C_OPEN, C_READ}); f.nth = (int)r.range(1, 12); f.kind = "error"; f.err = EIO;
     if (r.chance(0.25)) { f.call = C_ANY; f.nth = (int)r.range(1, 30); f.kind = "kill"; }   // the injecting child is killed (a death by signal is not success)
     p.faults.push_back(f);
-  } else if (mode == 9 && r.chance(0.2)) {
+  } else if (mode == 10) {
     // a recipient list longer than the daemon's 128-byte read buffer, and the read that fails is the second or a later one of a pass:
     // some recipients have been handed out, the rest are still in the file. Before that another message has come and gone, so every
     // job slot, channel slot and buffer in the daemon has been used once already.
@@ -176,13 +176,13 @@ static void gen_history(Rng &r, Plan &p, int mode, bool c04) {
   p.knobs.set("max_sim_s", (long long)(horizon * 6 + 1000000));
 }
 
-static const char *kModeNames[] = {"fault-free", "term-restart", "process-crash", "machine-crash-kept", "machine-crash-lossy", "io-error", "alloc-fail", "spawner-death", "bounce-injection-fault", "queue-file-io-error"};
+static const char *kModeNames[] = {"fault-free", "term-restart", "process-crash", "machine-crash-kept", "machine-crash-lossy", "io-error", "alloc-fail", "spawner-death", "bounce-injection-fault", "queue-file-io-error", "mid-pass-read-failure"};
 
 static bool gen_c03(uint64_t seed, const std::string &tier, uint64_t i, Plan &p) {
   (void)tier;
   p = Plan(); p.property = "C03"; p.world = "Q"; p.seed = mix64(mix64(seed, 0xC03), i);
   Rng r(p.seed);
-  static const int modes[] = {0, 0, 9, 1, 2, 2, 3, 4, 4, 5, 9, 6, 7, 8, 9, 0};
+  static const int modes[] = {0, 0, 9, 1, 2, 2, 3, 4, 4, 5, 9, 6, 7, 8, 9, 10};
   int mode = modes[i % 16];
   base_knobs(r, p, false);
   gen_history(r, p, mode, false);
